@@ -422,6 +422,314 @@ theorem C01_tanh_minmax (t : Tie) (bits : ℤ) (sym : Bool) (p : ℚ) :
       field_simp
     rw [this]; exact h2'
 
+/-! ## Strengthening round: per-channel constant scales, `relu_upper_bound` / `is_quantized_clip`,
+       `use_sigmoid` -/
+
+/-! ### quantized_linear with a per-channel scale tensor -/
+
+/-- `range()` (scalar scale) lists exactly the reachable outputs, for every positive scale -/
+theorem C01_linear_range_exact (t : Tie) (c : LinCfg) (h : c.signFn = false) (hq : 0 < c.qs) (y : ℚ) :
+    y ∈ qlinearRange c ↔ ∃ x, qlinear t c x = y := by
+  rw [qlinearRange_eq_codes c h]
+  simp only [List.mem_map, LinCfg.mem_codes]
+  constructor
+  · rintro ⟨k, ⟨h1, h2⟩, rfl⟩
+    refine ⟨(k : ℚ) * c.qs, ?_⟩
+    rw [qlinear_eq_sq t c h]
+    have : (k : ℚ) * c.qs / c.qs = (k : ℚ) := by field_simp
+    rw [this, rc_int t h1 h2]
+  · rintro ⟨x, rfl⟩
+    obtain ⟨k, h1, h2, hk⟩ := C01_linear_on_lattice t c h x
+    exact ⟨k, ⟨h1, h2⟩, hk.symm⟩
+
+/-- every element is a code of ITS channel's format: `k · alpha_j · 2^(integer − ub)` -/
+theorem C01_linear_pc_on_lattice (t : Tie) (c : LinCfg) (h : c.signFn = false) (as row : List ℚ) (j : ℕ)
+    (hj : j < as.length) (hr : j < row.length) :
+    ∃ k : ℤ, c.lo ≤ k ∧ k ≤ c.hi ∧
+      (qlinearPC t c as row)[j]'(by simp [qlinearPC]; omega) = (k : ℚ) * (c.chan as[j]).qs := by
+  rw [qlinearPC_getElem t c as row j hj hr]
+  exact C01_linear_on_lattice t (c.chan as[j]) h row[j]
+
+/-- per-channel `min()` / `max()` (tensors `clip_min · qs`, `clip_max · qs`) enclose every output
+    ELEMENT-WISE: entry `j` of the reporters bounds column `j` -/
+theorem C01_linear_pc_minmax (t : Tie) (c : LinCfg) (h : c.signFn = false) (as row : List ℚ) (j : ℕ)
+    (hj : j < as.length) (hr : j < row.length) (ha : 0 < as[j]) :
+    (qlinearMinPC c as)[j]'(by simp [qlinearMinPC]; omega) ≤
+        (qlinearPC t c as row)[j]'(by simp [qlinearPC]; omega) ∧
+    (qlinearPC t c as row)[j]'(by simp [qlinearPC]; omega) ≤
+        (qlinearMaxPC c as)[j]'(by simp [qlinearMaxPC]; omega) := by
+  rw [qlinearPC_getElem t c as row j hj hr]
+  simp only [qlinearMinPC, qlinearMaxPC, List.getElem_map]
+  exact C01_linear_minmax t (c.chan as[j]) h (c.chan_qs_pos ha) row[j]
+
+/-- a SCALAR bound for all channels must use a scale `M` that dominates every channel's scale —
+    for the lower bound as well, because `clip_min ≤ 0`: `clip_min · M ≤ out ≤ clip_max · M` -/
+theorem C01_linear_pc_scalar_bound (t : Tie) (c : LinCfg) (h : c.signFn = false) (a x M : ℚ)
+    (ha : 0 < a) (hM : (c.chan a).qs ≤ M) :
+    (c.lo : ℚ) * M ≤ qlinear t (c.chan a) x ∧ qlinear t (c.chan a) x ≤ (c.hi : ℚ) * M := by
+  obtain ⟨k, h1, h2, hk⟩ := C01_linear_on_lattice t (c.chan a) h x
+  rw [hk]
+  have hq := c.chan_qs_pos ha
+  have hlo : (c.lo : ℚ) ≤ 0 := by exact_mod_cast c.lo_le_zero
+  have hhi : (0 : ℚ) ≤ (c.hi : ℚ) := by exact_mod_cast c.zero_le_hi
+  have h1' : (c.lo : ℚ) ≤ k := by exact_mod_cast h1
+  have h2' : (k : ℚ) ≤ c.hi := by exact_mod_cast h2
+  constructor
+  · calc (c.lo : ℚ) * M ≤ (c.lo : ℚ) * (c.chan a).qs := by nlinarith
+      _ ≤ (k : ℚ) * (c.chan a).qs := by nlinarith
+  · calc (k : ℚ) * (c.chan a).qs ≤ (c.hi : ℚ) * (c.chan a).qs := by nlinarith
+      _ ≤ (c.hi : ℚ) * M := by nlinarith
+
+/-- … in particular `clip_min · K.max(quantization_scale)` and `clip_max · K.max(quantization_scale)` -/
+theorem C01_linear_pc_scalar_bound_max (t : Tie) (c : LinCfg) (h : c.signFn = false) (as : List ℚ)
+    (a x : ℚ) (hmem : a ∈ as) (ha : 0 < a) :
+    (c.lo : ℚ) * lmax (as.map fun b => (c.chan b).qs) ≤ qlinear t (c.chan a) x ∧
+    qlinear t (c.chan a) x ≤ (c.hi : ℚ) * lmax (as.map fun b => (c.chan b).qs) :=
+  C01_linear_pc_scalar_bound t c h a x _ ha (le_lmax (List.mem_map.mpr ⟨a, hmem, rfl⟩))
+
+/-- COUNTEREXAMPLE to the other reduction: `clip_min · K.min(quantization_scale)` does NOT enclose the
+    outputs: `quantized_linear(2, 0, symmetric=0, alpha=[[0.5, 1, 2]])`, `x = −3` in channel 1 gives
+    `−1` (code −2, a legal code) but `clip_min · min(qs) = −2 · 1/4 = −1/2` -/
+theorem C01_linear_pc_min_of_min_counterexample :
+    let c : LinCfg := { bits := 2, integer := 0, symmetric := false, keepNeg := true, alpha := none }
+    let as : List ℚ := [1/2, 1, 2]
+    qlinearPC .even c as [-3, -3, -3] = [-1/2, -1, -2] ∧
+    (c.lo : ℚ) * lmin (as.map fun b => (c.chan b).qs) = -1/2 ∧
+    qlinearMinPC c as = [-1/2, -1, -2] := by
+  refine ⟨by decide +kernel, by decide +kernel, by decide +kernel⟩
+
+/-- `range()` with the channels along the FIRST axis of the scale (`alpha` of shape `[C, 1]`): row `j`
+    is the scalar `range()` of channel `j`, hence (C01_linear_range_exact) exactly its reachable set -/
+theorem C01_linear_pc_range_first (c : LinCfg) (h : c.signFn = false) (as : List ℚ) :
+    qlinearRangeFirst c as = as.map fun a => qlinearRange (c.chan a) := by
+  unfold qlinearRangeFirst
+  apply List.map_congr_left
+  intro a _
+  rw [qlinearRange_eq_codes (c.chan a) h]; rfl
+
+/-- COUNTEREXAMPLE (known finding C01-linear-range-per-channel): with the channels along the LAST axis
+    (`alpha` of shape `[1, C]` / `[C]`) and as many channels as codes, `range()` multiplies code `j` by
+    scale `j`: `quantized_linear(2, 0, 1, alpha=[[0.5, 1, 2]]).range() = [[0, 0.5, −1]]`, while channel 0
+    emits `−1/4` -/
+theorem C01_linear_pc_range_last_counterexample :
+    let c : LinCfg := { bits := 2, integer := 0, symmetric := true, keepNeg := true, alpha := none }
+    qlinearRangeLast c [1/2, 1, 2] = some [0, 1/2, -1] ∧ qlinear .even (c.chan (1/2)) (-3) = -1/4 := by
+  refine ⟨by decide +kernel, by decide +kernel⟩
+
+/-! ### the quantized_linear object: which attributes are live -/
+
+theorem C01_linear_obj_fresh (t : Tie) (c : LinCfg) (x : ℚ) :
+    (LinObj.construct c).call t x = qlinear t c x := rfl
+
+/-- `symmetric` assigned after construction is honoured (read by `get_clip_bounds` in every call) -/
+theorem C01_linear_obj_symmetric_live (t : Tie) (c : LinCfg) (s : Bool) (x : ℚ) :
+    ((LinObj.construct c).setSymmetric s).call t x = qlinear t { c with symmetric := s } x := rfl
+
+/-- COUNTEREXAMPLE (known finding C01-linear-alpha-reassign): `alpha` assigned after construction is
+    NOT honoured — the scale stored by `__init__` stays: `q = quantized_linear(4, 0, 1); q.alpha = 2.0`
+    declares the step `2 · 2^-3 = 1/4` but `q(7/8) = 7/8` -/
+theorem C01_linear_obj_alpha_stale_counterexample :
+    let c : LinCfg := { bits := 4, integer := 0, symmetric := true, keepNeg := true, alpha := none }
+    let o := (LinObj.construct c).setAlpha (some 2)
+    o.cfg.qs = 1/4 ∧ o.call .even (7/8) = 7/8 ∧ ¬ ∃ k : ℤ, (7/8 : ℚ) = (k : ℚ) * (1/4) := by
+  refine ⟨by decide +kernel, by decide +kernel, ?_⟩
+  rintro ⟨k, hk⟩
+  have : (2 : ℚ) * (k : ℚ) = 7 := by linarith
+  have : (2 : ℤ) * k = 7 := by exact_mod_cast this
+  omega
+
+/-! ### quantized_bits with a per-channel scale -/
+
+theorem C01_bits_pc_on_lattice (t : Tie) (c : BitsCfg) (h : 0 < c.ub) (as row : List ℚ) (j : ℕ)
+    (hj : j < as.length) (hr : j < row.length) :
+    ∃ k : ℤ, c.lo ≤ k ∧ k ≤ c.hi ∧
+      (qbitsPC t c as row)[j]'(by simp [qbitsPC]; omega) = as[j] * (k : ℚ) * c.step := by
+  rw [qbitsPC_getElem t c as row j hj hr]
+  exact C01_bits_on_lattice t (c.chan as[j]) h row[j]
+
+/-- the scalar `min()` / `max()` of `quantized_bits` (which ignore `alpha`) enclose the outputs of
+    every channel whose scale is at most 1 -/
+theorem C01_bits_minmax_gain_le_one (t : Tie) (c : BitsCfg) (hg0 : 0 ≤ c.gain) (hg1 : c.gain ≤ 1)
+    (hb : 1 ≤ c.bits) (x : ℚ) : qbitsMin c ≤ qbits t c x ∧ qbits t c x ≤ qbitsMax c := by
+  set c0 : BitsCfg := { c with alpha := none } with hc0
+  have hgain0 : c0.gain = 1 := rfl
+  have hfac : qbits t c x = c.gain * qbits t c0 x := by
+    unfold qbits
+    have e1 : c0.ub = c.ub := rfl
+    have e2 : c0.step = c.step := rfl
+    have e3 : c0.lo = c.lo := rfl
+    have e4 : c0.hi = c.hi := rfl
+    have e5 : c0.keepNeg = c.keepNeg := rfl
+    rw [e1, e2, e3, e4, e5, hgain0]
+    split <;> ring
+  have hmm := C01_bits_minmax t c0 hgain0 hb x
+  have hmin : qbitsMin c0 = qbitsMin c := rfl
+  have hmax : qbitsMax c0 = qbitsMax c := rfl
+  rw [hmin, hmax] at hmm
+  have hmin0 : qbitsMin c ≤ 0 := by
+    unfold qbitsMin
+    have := pow2_pos c.integer
+    split
+    · exact le_rfl
+    · split
+      · split <;> linarith
+      · norm_num
+  have hmax0 : 0 ≤ qbitsMax c := by
+    unfold qbitsMax
+    have := pow2_pos c.integer
+    split
+    · split <;> linarith
+    · norm_num
+  rw [hfac]
+  obtain ⟨h1, h2⟩ := hmm
+  constructor <;> nlinarith
+
+/-! ### quantized_relu: `relu_upper_bound` / `is_quantized_clip` -/
+
+/-- with `is_quantized_clip` (the default), without an upper bound, or with the falsy bound `0.0` the
+    call is the plain quantizer -/
+theorem C01_reluU_default (t : Tie) (c : ReluCfg)
+    (h : c.qclip = true ∨ c.upper = none ∨ c.upper = some 0) (x : ℚ) : qreluU t c x = qrelu t c x := by
+  apply qreluU_of_clamp_none
+  rcases h with h | h | h
+  · exact ReluCfg.clamp_of_qclip h
+  · exact ReluCfg.clamp_of_no_upper h
+  · exact ReluCfg.clamp_of_zero h
+
+/-- whatever the options, no output exceeds the largest code: an upper bound ABOVE the largest code
+    must not let larger values through -/
+theorem C01_reluU_le_top (t : Tie) (c : ReluCfg) (hs : ∀ s : ℕ, c.slopeLog = some s → (s : ℤ) ≤ c.nsb)
+    (x : ℚ) : qreluU t c x ≤ (c.hi : ℚ) * c.step := by
+  refine le_trans (clampTo_le _ _) ?_
+  have hsp := c.step_pos
+  cases hsl : c.slopeLog with
+  | none =>
+    obtain ⟨k, _, h2, hk⟩ := C01_relu_plain_on_lattice t c hsl x
+    rw [hk]
+    have : (k : ℚ) ≤ c.hi := by exact_mod_cast h2
+    nlinarith
+  | some s =>
+    obtain ⟨k, _, h2, hk⟩ := C01_relu_leaky_on_lattice t c s hsl (hs s hsl) x
+    rw [hk]
+    have : (k : ℚ) ≤ c.hi := by exact_mod_cast h2
+    nlinarith
+
+/-- an upper bound at or above the largest code never triggers -/
+theorem C01_reluU_bound_above_top (t : Tie) (c : ReluCfg)
+    (hs : ∀ s : ℕ, c.slopeLog = some s → (s : ℤ) ≤ c.nsb) (u : ℚ) (hu : c.clamp = some u)
+    (htop : (c.hi : ℚ) * c.step ≤ u) (x : ℚ) : qreluU t c x = qrelu t c x := by
+  have hd := C01_reluU_default t { c with qclip := true } (Or.inl rfl) x
+  have hle : qrelu t c x ≤ (c.hi : ℚ) * c.step := by
+    have h := C01_reluU_le_top t { c with qclip := true } hs x
+    rw [hd] at h
+    exact h
+  unfold qreluU
+  rw [hu, clampTo_of_le (le_trans hle htop)]
+
+/-- plain ReLU with an ON-GRID upper bound `j·step` (or none): still a code of the format -/
+theorem C01_reluU_plain_on_lattice (t : Tie) (c : ReluCfg) (h : c.slopeLog = none)
+    (hc : ∀ u, c.clamp = some u → ∃ j : ℤ, 0 ≤ j ∧ u = (j : ℚ) * c.step) (x : ℚ) :
+    ∃ k : ℤ, 0 ≤ k ∧ k ≤ c.hi ∧ qreluU t c x = (k : ℚ) * c.step := by
+  obtain ⟨k, h1, h2, hk⟩ := C01_relu_plain_on_lattice t c h x
+  cases hcl : c.clamp with
+  | none => exact ⟨k, h1, h2, by rw [qreluU_of_clamp_none t hcl, hk]⟩
+  | some u =>
+    obtain ⟨j, hj, rfl⟩ := hc u hcl
+    refine ⟨min k j, le_min h1 hj, le_trans (min_le_left _ _) h2, ?_⟩
+    unfold qreluU
+    rw [hcl, hk, clampTo_lattice c.step_pos]
+
+/-- leaky ReLU with an on-grid upper bound -/
+theorem C01_reluU_leaky_on_lattice (t : Tie) (c : ReluCfg) (s : ℕ) (h : c.slopeLog = some s)
+    (hs : (s : ℤ) ≤ c.nsb)
+    (hc : ∀ u, c.clamp = some u → ∃ j : ℤ, - tp (c.nsb - s) ≤ j ∧ u = (j : ℚ) * c.step) (x : ℚ) :
+    ∃ k : ℤ, - tp (c.nsb - s) ≤ k ∧ k ≤ c.hi ∧ qreluU t c x = (k : ℚ) * c.step := by
+  obtain ⟨k, h1, h2, hk⟩ := C01_relu_leaky_on_lattice t c s h hs x
+  cases hcl : c.clamp with
+  | none => exact ⟨k, h1, h2, by rw [qreluU_of_clamp_none t hcl, hk]⟩
+  | some u =>
+    obtain ⟨j, hj, rfl⟩ := hc u hcl
+    refine ⟨min k j, le_min h1 hj, le_trans (min_le_left _ _) h2, ?_⟩
+    unfold qreluU
+    rw [hcl, hk, clampTo_lattice c.step_pos]
+
+/-- `min()` / `max()` enclose the plain outputs for every non-negative upper bound -/
+theorem C01_reluU_minmax (t : Tie) (c : ReluCfg) (h : c.slopeLog = none) (hb : 1 ≤ c.bits)
+    (hc : ∀ u, c.clamp = some u → 0 ≤ u) (x : ℚ) :
+    qreluMin c ≤ qreluU t c x ∧ qreluU t c x ≤ qreluMax c := by
+  obtain ⟨h1, h2⟩ := C01_relu_minmax t c h hb x
+  constructor
+  · have h0 : qreluMin c = 0 := by simp [qreluMin, h]
+    rw [h0] at h1 ⊢
+    unfold qreluU clampTo
+    cases hcl : c.clamp with
+    | none => exact h1
+    | some u => simp only; split
+                · exact h1
+                · exact hc u hcl
+  · exact le_trans (clampTo_le _ _) h2
+
+/-- COUNTEREXAMPLE (known finding C01-relu-upper-offgrid): an upper bound that is not a multiple of
+    the step is emitted as is: `quantized_relu(4, 1, is_quantized_clip=False, relu_upper_bound=1.3)(2)`
+    is `1.3`, not a multiple of the step `1/8` -/
+theorem C01_reluU_offgrid_counterexample :
+    let c : ReluCfg := { bits := 4, integer := 1, slopeLog := none, upper := some (13/10), qclip := false }
+    c.step = 1/8 ∧ qreluU .even c 2 = 13/10 ∧ ¬ ∃ k : ℤ, (13/10 : ℚ) = (k : ℚ) * (1/8) := by
+  refine ⟨by decide +kernel, by decide +kernel, ?_⟩
+  rintro ⟨k, hk⟩
+  have : (5 : ℚ) * (k : ℚ) = 52 := by linarith
+  have : (5 : ℤ) * k = 52 := by exact_mod_cast this
+  omega
+
+/-- COUNTEREXAMPLE (known finding C01-relu-range-ignores-upper): `range()` lists all `2^bits` codes
+    although an active upper bound makes the upper ones unreachable:
+    `quantized_relu(3, 2, is_quantized_clip=False, relu_upper_bound=2.0)`: `5/2` is listed, no output
+    exceeds `2` -/
+theorem C01_reluU_range_upper_counterexample :
+    let c : ReluCfg := { bits := 3, integer := 2, slopeLog := none, upper := some 2, qclip := false }
+    (∃ l, qreluRange c = some l ∧ (5/2 : ℚ) ∈ l) ∧ ∀ (t : Tie) (x : ℚ), qreluU t c x ≤ 2 := by
+  refine ⟨⟨_, rfl, by decide +kernel⟩, ?_⟩
+  intro t x
+  exact clampTo_le_bound 2 _
+
+/-! ### quantized_relu(use_sigmoid=1) on the surrogate value -/
+
+/-- plain `use_sigmoid`: codes `0 … 2^bits − 1` of the declared step, for every surrogate value -/
+theorem C01_reluSig_plain_on_lattice (t : Tie) (c : ReluCfg) (h : c.slopeLog = none) (hn : 0 ≤ c.nsb)
+    (s : ℚ) : ∃ k : ℤ, 0 ≤ k ∧ k ≤ c.hi ∧ qreluSigP t c s = (k : ℚ) * c.step := by
+  have hm := c.m_step hn
+  have hmpos : (0 : ℚ) < ((tp c.nsb : ℤ) : ℚ) := by exact_mod_cast tp_pos _
+  have hhi : c.hi = tp c.nsb - 1 := by unfold ReluCfg.hi; rw [twoPow_eq_tp]
+  have hone := tp_ge_one c.nsb
+  unfold qreluSigP
+  simp only [h, twoPow_eq_tp]
+  generalize roundTie t (s * ((tp c.nsb : ℤ) : ℚ)) = r
+  have hv : 2 * ((r : ℚ) / ((tp c.nsb : ℤ) : ℚ)) - 1 = ((2 * r - tp c.nsb : ℤ) : ℚ) / ((tp c.nsb : ℤ) : ℚ) := by
+    push_cast; field_simp
+  rw [hv]
+  unfold rclip
+  split
+  · exact ⟨0, le_rfl, by omega, by simp⟩
+  · rename_i h0
+    split
+    · refine ⟨tp c.nsb - 1, by omega, by omega, ?_⟩
+      rw [← hm]; push_cast; field_simp
+    · rename_i h1
+      push Not at h0 h1
+      refine ⟨2 * r - tp c.nsb, ?_, ?_, ?_⟩
+      · have : (0 : ℚ) ≤ ((2 * r - tp c.nsb : ℤ) : ℚ) := by
+          have := mul_le_mul_of_nonneg_right h0 hmpos.le
+          rw [div_mul_cancel₀ _ hmpos.ne'] at this; linarith
+        exact_mod_cast this
+      · have : ((2 * r - tp c.nsb : ℤ) : ℚ) ≤ ((tp c.nsb - 1 : ℤ) : ℚ) := by
+          have := mul_le_mul_of_nonneg_right h1 hmpos.le
+          rw [div_mul_cancel₀ _ hmpos.ne'] at this
+          have e : (1 - 1 / ((tp c.nsb : ℤ) : ℚ)) * ((tp c.nsb : ℤ) : ℚ) = ((tp c.nsb : ℤ) : ℚ) - 1 := by field_simp
+          rw [e] at this; push_cast at this ⊢; linarith
+        have : 2 * r - tp c.nsb ≤ tp c.nsb - 1 := by exact_mod_cast this
+        omega
+      · rw [← hm]; field_simp
+
 /-! ## non-vacuity -/
 
 example : (0 : ℤ) < ({ bits := 8, integer := 0, symmetric := false, keepNeg := true,
@@ -429,5 +737,11 @@ example : (0 : ℤ) < ({ bits := 8, integer := 0, symmetric := false, keepNeg :=
 example : qbitsRange { bits := 3, integer := 0, symmetric := false, keepNeg := true, alpha := none }
     = some [0, 1/4, 1/2, 3/4, -1, -3/4, -1/2, -1/4] := by decide +kernel
 example : qrelu .even { bits := 4, integer := 1, slopeLog := some 2 } (-3) = -1/2 := by decide +kernel
+example : qreluU .even { bits := 4, integer := 1, slopeLog := none, upper := some (3/2), qclip := false } 7
+    = 3/2 := by decide +kernel
+example : qreluU .even { bits := 4, integer := 1, slopeLog := none, upper := some 6, qclip := false } 7
+    = 15/8 := by decide +kernel
+example : qlinearMinPC { bits := 2, integer := 0, symmetric := false, keepNeg := true, alpha := none }
+    [1/2, 1, 2] = [-1/2, -1, -2] := by decide +kernel
 
 end QKV.Props.C01
